@@ -8,9 +8,9 @@ server (1) feeds, for every node the path's clauses match whose filter verdict c
 matches, a removal (old verdict true) or a set (old verdict false) — `rfStep`; (2) replaces the filter; (3) delivers the
 snapshot of the new filter's matches straight to the inbox, while the events of (1) are still pending; then the push.
 `refilter_quiescent`: the client that applies what was delivered — the flushed part of (1), the snapshot, the rest of (1) —
-holds a right mirror for the new subscription set.  `NoOwnEntering`: no node invisible to the subscriber enters through
-(1) (vacuous for a session that reflects to itself; for a plain session the server does report such own nodes — recorded
-observation — and the theorem excludes that case explicitly).
+holds a right mirror for the new subscription set.  The traversal of (1) runs with `GetDataCallback`'s rule (`getDataCb s`):
+a plain session without the indexing flag never has its own nodes fed (`rfVisits_of`, by the coupling `travG_mem`), so no
+node invisible to the subscriber can enter or leave through (1).
 -/
 
 set_option linter.unusedSimpArgs false
@@ -48,7 +48,7 @@ def rfEvs (s : Sess) (fix : Bytes) (e : Entry) (f : Option Filt) (sv0 : Server) 
 /-- the state `DoGetData` runs on in the re-filter branch -/
 def rfC (sv : Server) (sid : Nat) (s : Sess) (path : Bytes) (e : Entry) (f : Option Filt) : Server :=
   (((if s.subsEnabled && (f.isSome || e.filter.isSome) then
-      (travGlobal sv (pmPut [] (adjustPrefix path (some defaultPrefix)) none) false cbContinue).foldl
+      (travGlobal sv (pmPut [] (adjustPrefix path (some defaultPrefix)) none) false (getDataCb s)).foldl
         (rfStep s sid (adjustPrefix path (some defaultPrefix)) e f) sv
     else sv).updSess sid (fun t => { t with subs := pmPut t.subs (adjustPrefix path (some defaultPrefix)) f })).updSess sid
     (fun t => { t with params := if t.params.contains (subscribePrefix ++ path) then t.params
@@ -239,24 +239,55 @@ theorem mem_rfEvs {s : Sess} {fix : Bytes} {e : Entry} {f : Option Filt} {sv : S
     simp only []
     rw [if_pos hc]
 
-/-- no node invisible to the subscriber ENTERS through the re-filter: whenever the server reports an invisible node, the
-    report is a removal -/
-def NoOwnEntering (sv : Server) (s : Sess) (fix : Bytes) (e : Entry) (f : Option Filt) : Prop :=
-  ∀ v n, getNode sv v = some n → clausesMatch (splitSlash fix) v = true → visible s v = false →
-    rfCond s fix e f v n = true → verdict e.filter n.data = true
-
-theorem noOwnEntering_of_reflectSelf (sv : Server) {s : Sess} (h : s.reflectSelf = true) (fix : Bytes) (e : Entry)
-    (f : Option Filt) : NoOwnEntering sv s fix e f := by
-  intro v n _ _ hvis
-  simp [visible, h] at hvis
+/-- the visits of the re-filter traversal: the existing nodes the path's clauses match that are visible to the session
+    (for a session whose snapshot rule and notification rule agree) -/
+theorem rfVisits_of {sv : Server} (hti : TreeInv sv) {s : Sess} (h : s.reflectSelf = true ∨ s.indexingPresent = false)
+    {fix : Bytes} (hgood : GoodPath fix) :
+    ∀ w, w ∈ travGlobal sv (pmPut [] fix none) false (getDataCb s) ↔
+      ∃ n, w ≠ [] ∧ getNode sv w = some n ∧ clausesMatch (splitSlash fix) w = true ∧ visible s w = true := by
+  have hwf := mr_single_wf hgood none
+  intro w
+  cases hr : s.reflectSelf with
+  | true =>
+    have hcb : getDataCb s = cbContinue := by
+      funext names depth node
+      simp [getDataCb, cbContinue, hr]
+    rw [hcb, mr_visits_pm_f sv hti hwf false w]
+    have hvis : visible s w = true := by simp [visible, hr]
+    constructor
+    · rintro ⟨n, h1, h2, h3⟩; exact ⟨n, h1, h2, by rw [← mr_single_matches hgood.1 w n.data]; exact h3, hvis⟩
+    · rintro ⟨n, h1, h2, h3, _⟩; exact ⟨n, h1, h2, by rw [mr_single_matches hgood.1 w n.data]; exact h3⟩
+  | false =>
+    have hi : s.indexingPresent = false := by
+      rcases h with h | h
+      · rw [hr] at h; cases h
+      · exact h
+    have hcb : getDataCb s = cbG (sidName s.sid) := by
+      funext names depth node
+      simp [getDataCb, cbG, hr, hi]
+    have hk := mr_kidsNodup_of_allNodes fuelDepth sv.root hti
+    have hG : travGlobal sv (pmPut [] fix none) false (getDataCb s) =
+        (travAux (ctxGg (pmPut [] fix none) false (sidName s.sid)) fuelDepth sv.root [] 0).1 := by
+      rw [hcb]; rfl
+    have hC : travGlobal sv (pmPut [] fix none) false cbContinue =
+        (travAux (ctxCc (pmPut [] fix none) false) fuelDepth sv.root [] 0).1 := rfl
+    rw [hG, travG_mem (pmPut [] fix none) false (sidName s.sid) hwf.pmWF hwf.laws fuelDepth sv.root hk w, ← hC,
+      mr_visits_pm_f sv hti hwf false w]
+    have hvis : visible s w = true ↔ ¬ isOwn (sidName s.sid) w := by
+      simp [visible, isOwn, hr]
+    constructor
+    · rintro ⟨⟨n, h1, h2, h3⟩, hno⟩
+      exact ⟨n, h1, h2, by rw [← mr_single_matches hgood.1 w n.data]; exact h3, hvis.2 hno⟩
+    · rintro ⟨n, h1, h2, h3, h4⟩
+      exact ⟨⟨n, h1, h2, by rw [mr_single_matches hgood.1 w n.data]; exact h3⟩, hvis.1 h4⟩
 
 theorem refilter_mirror {sv C : Server} (hroot : C.root = sv.root) (hNS : NS sv) {s sB : Sess} (hwf : SubsWF s.subs)
     {fix : Bytes} {e : Entry} (hf : pmFind s.subs fix = some e) (f : Option Filt)
     (hsubs : sB.subs = pmPut s.subs fix f) (hsid : sB.sid = s.sid) (hrs : sB.reflectSelf = s.reflectSelf)
-    {V : List Visit} (hV : ∀ w, w ∈ V ↔ ∃ n, w ≠ [] ∧ getNode sv w = some n ∧ clausesMatch (splitSlash fix) w = true)
+    {V : List Visit} (hV : ∀ w, w ∈ V ↔ ∃ n, w ≠ [] ∧ getNode sv w = some n ∧ clausesMatch (splitSlash fix) w = true ∧
+        visible s w = true)
     {vsC : List Visit} (hVC : ∀ v, v ∈ vsC ↔ ∃ n, v ≠ [] ∧ getNode C v = some n ∧
         pmMatchesPath (pmPut [] fix f) v true n.data = true ∧ visible sB v = true)
-    (hown : NoOwnEntering sv s fix e f)
     {m M1 : Mirror} {u : UpdMsg} (hm : MirrorOK sv s m)
     (hview : applyMsg M1 u = (rfEvs s fix e f sv V).foldl applyEv m) (hprov : Prov (rfEvs s fix e f sv V) u) :
     MirrorOK C sB (applyMsg ((snapEvs C vsC).foldl applyEv M1) u) := by
@@ -356,7 +387,7 @@ theorem refilter_mirror {sv C : Server} (hroot : C.root = sv.root) (hNS : NS sv)
       · rw [if_pos hold] at hev; cases hev
       · rw [if_neg hold] at hev
         injection hev with h1 h2
-        obtain ⟨nw', hw0, hnw', hcm⟩ := (hV w).1 hwV
+        obtain ⟨nw', hw0, hnw', hcm, hvw⟩ := (hV w).1 hwV
         have hnewT : verdict f nw.data = true := by
           cases h2' : verdict f nw.data with
           | true => rfl
@@ -365,12 +396,9 @@ theorem refilter_mirror {sv C : Server} (hroot : C.root = sv.root) (hNS : NS sv)
             apply (hcond _ _ hc).1
             rw [h2']
             exact Bool.eq_false_iff.2 hold
-        cases hvw : visible s w with
-        | true =>
-          apply hhit
-          refine ⟨w, (hVC w).2 ⟨nw, hw0, by rw [hgC]; exact hnw, ?_, by rw [hvis]; exact hvw⟩, nw, by rw [hgC]; exact hnw, h1.symm⟩
-          rw [single_matches_f hgood.1, hcm, hnewT]; rfl
-        | false => exact hold (hown w nw hnw hcm hvw hc)
+        apply hhit
+        refine ⟨w, (hVC w).2 ⟨nw, hw0, by rw [hgC]; exact hnw, ?_, by rw [hvis]; exact hvw⟩, nw, by rw [hgC]; exact hnw, h1.symm⟩
+        rw [single_matches_f hgood.1, hcm, hnewT]; rfl
     obtain ⟨hrem1, hrem2⟩ := foldEv_noset evs m p hnoset
     have hmatchesC : ∀ d, Matches C sB p d ↔ ∃ v n, v ≠ [] ∧ getNode sv v = some n ∧ pathString v = p ∧
         visible s v = true ∧ wants sB v n.data = true ∧ n.data = d := by
@@ -404,8 +432,9 @@ theorem refilter_mirror {sv C : Server} (hroot : C.root = sv.root) (hNS : NS sv)
         · rw [if_neg hold] at hev; cases hev
     · rw [hrem2 hrm, hm p d]
       unfold Matches
-      have hsame : ∀ v n, v ≠ [] → getNode sv v = some n → pathString v = p → wants s v n.data = wants sB v n.data := by
-        intro v n hv0 hn hpv
+      have hsame : ∀ v n, v ≠ [] → getNode sv v = some n → pathString v = p → visible s v = true →
+          wants s v n.data = wants sB v n.data := by
+        intro v n hv0 hn hpv hvv
         rw [hwS, hwB]
         cases hoth : pmMatchesPath (pmRemove s.subs fix) v true n.data with
         | true => rfl
@@ -421,15 +450,15 @@ theorem refilter_mirror {sv C : Server} (hroot : C.root = sv.root) (hNS : NS sv)
                 unfold rfCond
                 simp only [Bool.and_eq_true, decide_eq_true_eq, Bool.not_eq_true']
                 exact ⟨heq, hoth⟩
-              have hvV : v ∈ V := (hV v).2 ⟨n, hv0, hn, hcm⟩
+              have hvV : v ∈ V := (hV v).2 ⟨n, hv0, hn, hcm, hvv⟩
               have hin : evOf (pathString v) n.data (verdict e.filter n.data) ∈ evs := (hmem _).2 ⟨v, hvV, n, hn, hc, rfl⟩
               unfold evOf at hin
               by_cases hold : verdict e.filter n.data = true
               · rw [if_pos hold, hpv] at hin; exact hrm hin
               · rw [if_neg hold, hpv] at hin; exact hnoset _ hin
       constructor
-      · rintro ⟨v, n, h1, h2, h3, h4, h5, h6⟩; exact ⟨v, n, h1, h2, h3, h4, by rw [← hsame v n h1 h2 h3]; exact h5, h6⟩
-      · rintro ⟨v, n, h1, h2, h3, h4, h5, h6⟩; exact ⟨v, n, h1, h2, h3, h4, by rw [hsame v n h1 h2 h3]; exact h5, h6⟩
+      · rintro ⟨v, n, h1, h2, h3, h4, h5, h6⟩; exact ⟨v, n, h1, h2, h3, h4, by rw [← hsame v n h1 h2 h3 h4]; exact h5, h6⟩
+      · rintro ⟨v, n, h1, h2, h3, h4, h5, h6⟩; exact ⟨v, n, h1, h2, h3, h4, by rw [hsame v n h1 h2 h3 h4]; exact h5, h6⟩
 
 theorem core_subs {s t : Sess} (h : s.core = t.core) : s.subs = t.subs := by
   have := congrArg Sess.subs h; exact this
@@ -461,27 +490,25 @@ theorem rfEvs_nil_of_none (s : Sess) (fix : Bytes) {e : Entry} (he : e.filter = 
     rw [this]; rfl
 
 /-- the premises of a SUBSCRIBE by `sid` in state `sv` for a path it already holds: snapshot rule and notification rule
-    agree for the session, and no invisible node enters through `ChangeQueryFilterCallback` -/
+    agree for the session (it reflects to itself or does not carry the indexing flag), and the path is held under its
+    normalised spelling -/
 def RefilterOK (sid : Nat) (sv : Server) (path : Bytes) (f : Option Filt) : Prop :=
   ∀ s, sv.sess? sid = some s →
     (s.reflectSelf = true ∨ s.indexingPresent = false) ∧
-    ∃ e, pmFind s.subs (adjustPrefix path (some defaultPrefix)) = some e ∧
-      NoOwnEntering sv s (adjustPrefix path (some defaultPrefix)) e f
+    (pmFind s.subs (adjustPrefix path (some defaultPrefix))).isSome = true
 
 /-- for a subscriber that reflects to itself: "already subscribed under this normalised spelling" is all -/
 theorem refilterOK_of_reflectSelf {sid : Nat} {sv : Server} (path : Bytes) (f : Option Filt)
     (h : ∀ s, sv.sess? sid = some s → s.reflectSelf = true ∧
-      (pmFind s.subs (adjustPrefix path (some defaultPrefix))).isSome = true) : RefilterOK sid sv path f := by
-  intro s hs
-  obtain ⟨h1, h2⟩ := h s hs
-  obtain ⟨e, he⟩ := Option.isSome_iff_exists.1 h2
-  exact ⟨Or.inl h1, e, he, noOwnEntering_of_reflectSelf sv h1 _ e f⟩
+      (pmFind s.subs (adjustPrefix path (some defaultPrefix))).isSome = true) : RefilterOK sid sv path f :=
+  fun s hs => ⟨Or.inl (h s hs).1, (h s hs).2⟩
 
 theorem refilter_quiescent {sid : Nat} {sv : Server} {s : Sess} {m : Mirror} (q : Quiescent sid sv s m) (path : Bytes)
     (f : Option Filt) (hok : RefilterOK sid sv path f) :
     ∃ s' items, Quiescent sid (pushAll (runCmd sv sid (.sub path f))) s' (client m items) ∧
       dataLines s' = dataLines s ++ (msgsOf items).map dataText ∧ s'.sid = s.sid ∧ s'.reflectSelf = s.reflectSelf := by
-  obtain ⟨hrule, e, hf, hown⟩ := hok s q.sess
+  obtain ⟨hrule, hsome⟩ := hok s q.sess
+  obtain ⟨e, hf⟩ := Option.isSome_iff_exists.1 hsome
   have hs := q.sess
   have hinv := q.inv
   have hwf : SubsWF s.subs := hinv.1.2.1.1.wf (sid, s.subs) (List.mem_of_find?_eq_some (mr_sessKeys_find hs))
@@ -492,8 +519,8 @@ theorem refilter_quiescent {sid : Nat} {sv : Server} {s : Sess} {m : Mirror} (q 
   have heq : runCmd sv sid (.sub path f) = doGetData (rfC sv sid s path e f) sid [(path, f)] :=
     subscribe_refilter_eq hs path f hf
   rw [heq] at hinv' ⊢
-  generalize hfix : adjustPrefix path (some defaultPrefix) = fix at hf hown hgood
-  generalize hVdef : travGlobal sv (pmPut [] fix none) false cbContinue = V
+  generalize hfix : adjustPrefix path (some defaultPrefix) = fix at hf hgood
+  generalize hVdef : travGlobal sv (pmPut [] fix none) false (getDataCb s) = V
   -- (1) the fold
   have hA : ∃ A, RfInv sv sid s A (rfEvs s fix e f sv V) ∧
       rfC sv sid s path e f = ((A.updSess sid (fun t => { t with subs := pmPut t.subs fix f })).updSess sid
@@ -548,13 +575,12 @@ theorem refilter_quiescent {sid : Nat} {sv : Server} {s : Sess} {m : Mirror} (q 
   rw [pmOfKeys_single, hfix] at hviewC
   have hVC : SnapVisits C sB fix f :=
     snapVisits_of (treeInv_of_root hrootC hinv.1.1) (by rw [hrsB, hipB]; exact hrule) hgood f
-  have hVsv : ∀ w, w ∈ V ↔ ∃ n, w ≠ [] ∧ getNode sv w = some n ∧ clausesMatch (splitSlash fix) w = true := by
+  have hVsv : ∀ w, w ∈ V ↔ ∃ n, w ≠ [] ∧ getNode sv w = some n ∧ clausesMatch (splitSlash fix) w = true ∧
+      visible s w = true := by
     intro w
-    rw [← hVdef, mr_visits_pm_f sv hinv.1.1 (mr_single_wf hgood none) false w]
-    constructor
-    · rintro ⟨n, h1, h2, h3⟩; exact ⟨n, h1, h2, by rw [← mr_single_matches hgood.1 w n.data]; exact h3⟩
-    · rintro ⟨n, h1, h2, h3⟩; exact ⟨n, h1, h2, by rw [mr_single_matches hgood.1 w n.data]; exact h3⟩
-  have hmirC := refilter_mirror hrootC hinv.1.2.2 hwf hf f hsubsB hsidB hrsB hVsv hVC hown q.mirror (hviewA m) hprovA
+    rw [← hVdef]
+    exact rfVisits_of hinv.1.1 hrule hgood w
+  have hmirC := refilter_mirror hrootC hinv.1.2.2 hwf hf f hsubsB hsidB hrsB hVsv hVC q.mirror (hviewA m) hprovA
   rw [← hviewC] at hmirC
   generalize hDdef : doGetData C sid [(path, f)] = D at hsD hrootD hinv' ⊢
   have hdirtyD : D.subsDirty = A.subsDirty := by rw [← hDdef, subsDirty_doGetData]; exact hdirtyC
